@@ -71,6 +71,8 @@ pub const UNICODE_CLASSES: &[&str] = &[
     "\u{301}", "\u{308}", "\u{200d}", "€", "😀", "\u{1f1e9}",
     // typographic apostrophes and quotes
     "’", "‘", "“", "”", "«",
+    // symbols someone might add as operator or punctuation aliases
+    "×", "÷", "−", "≤", "≥", "≠", "…", "—", "¿",
 ];
 
 /// the Unicode classes in every lexical position, alone and in pairs
